@@ -1,0 +1,22 @@
+//go:build verif
+
+package kv
+
+// VerifC01Rolluping reports whether the family has a background rollup job that was started
+// (rollup() won the CAS on f.rolluping) and has not finished yet (its deferred deleteObsoleteFiles
+// included). Verification hook (C01, compaction outputs vs. a concurrent cleanup): read-only, no
+// production code path calls it.
+func VerifC01Rolluping(f Family) bool { return f.(*family).rolluping.Load() }
+
+// VerifC01PendingOutputs returns the family's pendingOutputs (file numbers protected from
+// deleteObsoleteFiles), unsorted. Read-only.
+func VerifC01PendingOutputs(f Family) []int64 {
+	var rs []int64
+	f.(*family).pendingOutputs.Range(func(key, _ interface{}) bool {
+		if k, ok := key.(interface{ Int64() int64 }); ok {
+			rs = append(rs, k.Int64())
+		}
+		return true
+	})
+	return rs
+}
